@@ -30,7 +30,11 @@
 (***************************************************************************)
 EXTENDS ZRecover
 CONSTANTS Files,                 \* the damaged files to consider
-          MAGIC, FH, LENOFF, LENSZ, TR   \* layout: 4, 23, 8, 8, 8 in the format (scaled down for model checking)
+          MAGIC, FH, LENOFF, LENSZ, TR,  \* layout: 4, 23, 8, 8, 8 in the format (scaled down for model checking)
+          EmitsCut               \* TRUE: the code as it is - the record iterator only logs a warning and stops at
+                                 \* a data record whose length or transaction pointer is inconsistent, so recover()
+                                 \* (without -p) commits the transaction with the records before that point;
+                                 \* FALSE: "transactions with any bad data are skipped" (the module's docstring)
 VARIABLES F,        \* the file
           pos,      \* position the loop is at
           ltid,     \* id of the last header accepted (0: none); the id of extent i is 2 * i, so that a
@@ -83,10 +87,12 @@ HeaderError ==
   /\ phase = "header" /\ F.size - pos >= FH /\ ~MustAccept
   /\ phase' = "scan" /\ UNCHANGED <<F, pos, ltid, out, cur>>
 
-\* the records are restored and the transaction committed; unchanged unless damaged bytes were involved
-CopyOk(same) ==
-  /\ phase = "copy" /\ (~Touched(F, cur) => same)
-  /\ out' = Append(out, [src |-> cur, same |-> same])
+\* the records are restored and the transaction committed; unchanged unless damaged bytes were involved;
+\* with all its records unless (EmitsCut) the iterator stopped early at damaged bytes
+CopyOk(same, whole) ==
+  /\ phase = "copy" /\ (~Touched(F, cur) => same) /\ (same => whole)
+  /\ (~whole => (EmitsCut /\ Touched(F, cur)))
+  /\ out' = Append(out, [src |-> cur, same |-> same, whole |-> whole])
   /\ pos' = Ext(cur).e /\ phase' = "header" /\ cur' = 0 /\ UNCHANGED <<F, ltid>>
 \* restoring fails: abort, scan on from the end of the transaction.  Only damaged bytes can make it fail, or a
 \* back-pointer record whose data_txn is not in the output unchanged: FileStorage.restore looks the hinted
@@ -113,7 +119,7 @@ TNext ==
   \/ \E i \in 1..NT(F), t \in TidRange : HeaderGarbled(i, t)
   \/ \E i \in 1..NT(F), t \in TidRange : HeaderUndone(i, t)
   \/ HeaderEOF \/ HeaderError
-  \/ \E same \in BOOLEAN : CopyOk(same)
+  \/ \E same \in BOOLEAN, whole \in BOOLEAN : CopyOk(same, whole)
   \/ CopyFail \/ Crash
   \/ \E q \in 0..F.size : Scan(q)
 TSpec == TInit /\ [][TNext]_tvars /\ WF_tvars(TNext)
